@@ -130,6 +130,11 @@ def _(v):
     # (the default precision 5 is part of `flt` above: with prec=None the text must be that of "%.5g")
 
 
+def to_s(x):
+    import z3
+    return x.e if isinstance(x, Sym) else z3.StringVal(x)
+
+
 @harness("C20", "_number_to_X.unit_and_uncertainty", functions=[NUM + ":_number_to_X"], kind="shape-bounded", samples=0)
 def _(v):
     import z3
@@ -152,12 +157,28 @@ def _(v):
         v_.path.assume(z3.InRe(out, z3.Concat(ne, z3.Option(z3.Concat(z3.Re(z3.StringVal("e")), ne)))))   # its own layouts: nom(unc) or nom(unc)e<exp>
         return Sym(out)
     v.contract(N._float_str_w_uncert, "_float_str_w_uncert", None, fsu)
-    r = v.call(N._number_to_X, x, dx, unit, None, lambda u: "[" + u.name + "]", lambda s, m: "POW", "~")
+    calls = []
+
+    def render(sig, mant):
+        return Sym(z3.Function("render", z3.StringSort(), z3.StringSort(), z3.StringSort())(to_s(sig), to_s(mant)))
+
+    def pow10(sig, mant):
+        calls.append((sig, mant))
+        return render(sig, mant)
+    r = v.call(N._number_to_X, x, dx, unit, None, lambda u: "[" + u.name + "]", pow10, "~")
     US = z3.Function("uncert_str", z3.RealSort(), z3.RealSort(), z3.IntSort(), z3.StringSort())
     flt = US(mag.e, umag.e, z3.IntVal(2))
+    has_e = z3.Contains(flt, z3.StringVal("e"))
     v.prove("magnitude_and_uncertainty_converted_to_the_shown_unit", [a for a, b in seen["to_unitless"]] == [x, dx] and all(b is unit for a, b in seen["to_unitless"]))
-    v.prove("uncertainty_goes_to_float_str_w_uncert_with_default_2_digits_and_unit_follows_separator",
-            SP.disj([r == Sym(z3.Concat(flt, z3.StringVal("~[furlong]"))), SP.conj([Sym(z3.Contains(flt, z3.StringVal("e"))), r == "POW~[furlong]"])]))
+    # both directions: an exponent form is split exactly once at its 'e' and handed to the power-of-ten renderer; a plain form is shown verbatim;
+    # in both cases the unit follows the separator
+    if calls:
+        sig, mant = calls[0]
+        v.prove("uncertainty_with_exponent_is_split_once_and_rendered", SP.conj([Sym(has_e), Sym(z3.Concat(to_s(sig), z3.StringVal("e"), to_s(mant))) == Sym(flt),
+                                                                                 SP.neg(Sym(z3.Contains(to_s(sig), z3.StringVal("e")))), len(calls) == 1,
+                                                                                 r == Sym(z3.Concat(render(sig, mant).e, z3.StringVal("~[furlong]")))]))
+    else:
+        v.prove("plain_uncertainty_form_is_shown_verbatim_with_the_unit", SP.conj([SP.neg(Sym(has_e)), r == Sym(z3.Concat(flt, z3.StringVal("~[furlong]")))]))
 
 
 @harness("C20", "reaction_param_str", functions=["chempy.printing.string:StrPrinter._Reaction_param_str", "chempy.printing.string:StrPrinter._print_Reaction"], kind="shape-bounded", samples=0)
@@ -180,3 +201,33 @@ def _(v):
     whole = v.call(p._print_Reaction, rxn2)
     v.prove("reaction_then_separator_then_param", whole == Sym(z3.Concat(z3.StringVal("A -> B; "), F(z3.IntVal(3), m.e))))
     v.prove("without_param", v.call(p._print_Reaction, rxn2, with_param=False) == "A -> B")
+
+
+@harness("C20", "public_wrappers", functions=[NUM + ":number_to_scientific_latex", NUM + ":number_to_scientific_unicode", NUM + ":number_to_scientific_html"], kind="data")
+def _(v):
+    """the three public functions, each with ITS renderer, separator and unit formatter: expected texts written by hand from the notation
+    (significand, then 'times ten to the exponent' in that medium, '1 x' omitted only for a POSITIVE unit significand, unit after the separator,
+    uncertainty in parentheses before the power of ten)"""
+    from chempy.printing.numbers import number_to_scientific_latex as L, number_to_scientific_unicode as U, number_to_scientific_html as H
+    table = [
+        (2e10, "2\\cdot 10^{10}", "2·10¹⁰", "2&sdot;10<sup>10</sup>"),
+        (1e-17, "10^{-17}", "10⁻¹⁷", "10<sup>-17</sup>"),
+        (-1e-17, "-1\\cdot 10^{-17}", "-1·10⁻¹⁷", "-1&sdot;10<sup>-17</sup>"),
+        (123456.0, "1.2346\\cdot 10^{5}", "1.2346·10⁵", "1.2346&sdot;10<sup>5</sup>"),
+        (3.14159, "3.1416", "3.1416", "3.1416"),
+        (-0.0025, "-0.0025", "-0.0025", "-0.0025"),
+        (0.0, "0", "0", "0"),
+    ]
+    bad = [(x, f.__name__, f(x)) for x, *want in table for f, w in zip((L, U, H), want) if f(x) != w]
+    v.prove("plain_numbers", not bad, detail=repr(bad))
+    v.prove("requested_digits", (L(2.345e10, fmt=2), U(2.345e10, fmt=2), H(2.345e10, fmt=2)) == ("2.3\\cdot 10^{10}", "2.3·10¹⁰", "2.3&sdot;10<sup>10</sup>")
+            and U(1.23456789e-3, fmt=8) == "0.0012345679" and U(7.0, fmt=1) == "7")
+    v.prove("uncertainty_before_the_power_of_ten", (L(1.2345e-5, 1.2e-7), U(1.2345e-5, 1.2e-7), H(1.2345e-5, 1.2e-7)) ==
+            ("1.234(12)\\cdot 10^{-5}", "1.234(12)·10⁻⁵", "1.234(12)&sdot;10<sup>-5</sup>"))
+    try:
+        from chempy.units import default_units as u
+        q = 3e5 * u.m / u.s
+        v.prove("unit_after_the_number", (L(q), U(q), H(q)) == ("3\\cdot 10^{5}\\,\\mathrm{\\frac{m}{s}}", "3·10⁵ m/s", "3&sdot;10<sup>5</sup> m/s")
+                and U(1500 * u.m, unit=u.km) == "1.5 km" and U(2.0 * u.km, 0.25 * u.km, unit=u.m) == "2000(250) m")
+    except ImportError:
+        pass
